@@ -318,3 +318,69 @@ Proof.
   pose proof (b58_decode_inner_space a sp b v H Hs X) as A.
   unfold all_space in A. rewrite Forall_forall in A. specialize (A y Hy). congruence.
 Qed.
+
+(** ------------------------------------------------------------ int width *)
+
+(** The carry loop as C executes it: [int carry] is a 32-bit two's-complement
+    int ([wrap32] after every operation), [%] and [/] truncate towards zero
+    ([Z.rem], [Z.quot]), the digit is stored into an [unsigned char]
+    ([mod 256]). [carry_loop_bounds] shows that for a start carry in [0, mul)
+    and buffer digits in [0, base) nothing wraps or truncates:
+    this is exactly [carry_loop] of Base58Defs. *)
+Definition wrap32 (x : Z) : Z := (x + 2 ^ 31) mod 2 ^ 32 - 2 ^ 31.
+
+Fixpoint carry_loop_c (mul base carry : Z) (i length : nat) (buf : list Z)
+  : list Z * Z * nat :=
+  match buf with
+  | [] => ([], carry, i)
+  | x :: r =>
+      if negb (carry =? 0) || (i <? length)%nat then
+        let c := wrap32 (carry + wrap32 (mul * x)) in
+        match carry_loop_c mul base (Z.quot c base) (S i) length r with
+        | (r', carry', i') => ((Z.rem c base) mod 256 :: r', carry', i')
+        end
+      else (buf, carry, i)
+  end.
+
+Lemma wrap32_id x : 0 <= x < 2 ^ 31 -> wrap32 x = x.
+Proof. unfold wrap32. intros H. change (2 ^ 31) with 2147483648 in *. change (2 ^ 32) with 4294967296. lia. Qed.
+
+Theorem carry_loop_bounds mul base len :
+  0 < base <= 256 -> 0 < mul -> mul * base <= 2 ^ 31 ->
+  forall buf carry i,
+    0 <= carry < mul -> Forall (fun x => 0 <= x < base) buf ->
+    carry_loop_c mul base carry i len buf = carry_loop mul base carry i len buf.
+Proof.
+  intros Hb Hm Hmb. induction buf as [|x r IH]; intros carry i Hc Hd; [reflexivity|].
+  inversion Hd as [|? ? Hx Hr]; subst.
+  cbn [carry_loop_c carry_loop]. destruct (negb (carry =? 0) || (i <? len)%nat); [|reflexivity].
+  cbv zeta.
+  assert (Hmx : 0 <= mul * x <= mul * (base - 1)).
+  { split; [apply Z.mul_nonneg_nonneg; lia|apply Z.mul_le_mono_nonneg_l; lia]. }
+  assert (Hc1 : 0 <= carry + mul * x < mul * base) by lia.
+  rewrite (wrap32_id (mul * x)) by lia.
+  rewrite (wrap32_id (carry + mul * x)) by lia.
+  set (c := carry + mul * x) in *.
+  rewrite Z.quot_div_nonneg, Z.rem_mod_nonneg by lia.
+  assert (Hq : 0 <= c / base < mul).
+  { split; [apply Z.div_pos; lia|apply Z.div_lt_upper_bound; lia]. }
+  assert (Hr' : 0 <= c mod base < base) by (apply Z.mod_pos_bound; lia).
+  rewrite (Z.mod_small (c mod base) 256) by lia.
+  rewrite (IH (c / base) (S i) Hq Hr). reflexivity.
+Qed.
+
+(** the two instances used by the code: the start carry is a byte resp. a
+    base-58 digit *)
+Corollary carry_loop_bounds_enc len buf b i :
+  0 <= b < 256 -> Forall (fun x => 0 <= x < b58_enc_base) buf ->
+  carry_loop_c b58_enc_mul b58_enc_base b i len buf = carry_loop b58_enc_mul b58_enc_base b i len buf.
+Proof.
+  intros Hb Hd. apply carry_loop_bounds; try assumption; try (vm_compute; intuition discriminate).
+Qed.
+
+Corollary carry_loop_bounds_dec len buf d i :
+  0 <= d < 58 -> Forall (fun x => 0 <= x < b58_dec_base) buf ->
+  carry_loop_c b58_dec_mul b58_dec_base d i len buf = carry_loop b58_dec_mul b58_dec_base d i len buf.
+Proof.
+  intros Hb Hd. apply carry_loop_bounds; try assumption; try (vm_compute; intuition discriminate).
+Qed.
